@@ -51,12 +51,8 @@ Proof. vring. Qed.
 Lemma scale_inverse s og p : s <> 0 -> scale_pt O (1 / s) og (scale_pt O s og p) = p.
 Proof. intros Hs. vdestruct; vunf; veq; field; auto. Qed.
 
-Definition mid : mat (T:=T) := ((1, 0, 0), (0, 1, 0), (0, 0, 1)).
-Definition mmul (A B : mat (T:=T)) : mat (T:=T) :=
-  let Bt := mtrans B in
-  let '(a1, a2, a3) := A in
-  let '(b1, b2, b3) := Bt in
-  ((dot O a1 b1, dot O a1 b2, dot O a1 b3), (dot O a2 b1, dot O a2 b2, dot O a2 b3), (dot O a3 b1, dot O a3 b2, dot O a3 b3)).
+Notation mmul := (mmul O).
+Notation mid := (mid O).
 
 Lemma mapply_mmul A B v : mapply O A (mapply O B v) = mapply O (mmul A B) v.
 Proof.
@@ -160,8 +156,10 @@ Theorem rotate_then_back (w w1 w2 : world) i R orig :
   obj_coords O w2 i = obj_coords O w i.
 Proof.
   intros Hwf HR _ S1 S2.
-  assert (G1 : exists so, get_mesh w i = Some so) by (cbn [step] in S1; destruct (get_mesh w i); [eauto|discriminate]).
-  assert (G2 : exists so, get_mesh w1 i = Some so) by (cbn [step] in S2; destruct (get_mesh w1 i); [eauto|discriminate]).
+  assert (G1 : exists so, get_mesh w i = Some so)
+    by (cbn [step] in S1; destruct (is_rotation O R); [|discriminate]; destruct (get_mesh w i); [eauto|discriminate]).
+  assert (G2 : exists so, get_mesh w1 i = Some so)
+    by (cbn [step] in S2; destruct (is_rotation O (mtrans R)); [|discriminate]; destruct (get_mesh w1 i); [eauto|discriminate]).
   destruct G1 as [so1 G1], G2 as [so2 G2].
   set (og := match orig with Some v => v | None => vzero O end).
   eapply two_steps_restore with (f := rotate_pt O (mapply O R) og) (g := rotate_pt O (mapply O (mtrans R)) og); eauto.
